@@ -111,6 +111,20 @@ namespace
             viol("C19", fmt("C19/buckets<%s,%s>/max-node-size", lname, pname), "array created for max node size %zu reports %zu", max_node,
                  arr.max_node_size());
         bool log2 = std::is_same<Policy, detail::log2_access_policy>::value;
+        // the selection must also be right after the array was moved and move-assigned (pool collections are movable):
+        // onto an array built for a smaller and for a larger maximum
+        {
+            static char                 other_storage[1 << 16];
+            detail::fixed_memory_stack  st2(other_storage);
+            std::size_t                 other_max = (max_node % 2) ? std::max<std::size_t>(max_node / 3, 8) : std::min<std::size_t>(max_node * 2, 1024);
+            detail::free_list_array<List, Policy> other(st2, other_storage + sizeof other_storage, other_max);
+            other = std::move(arr);
+            detail::free_list_array<List, Policy> back(std::move(other));
+            arr = std::move(back);
+            if (arr.max_node_size() < max_node)
+                viol("C19", fmt("C19/buckets<%s,%s>/max-node-size", lname, pname), "after move assignment an array created for max node size %zu reports %zu", max_node,
+                     arr.max_node_size());
+        }
         for (std::size_t s = 1; s <= max_node; ++s)
         {
             ++evals;
